@@ -2,8 +2,10 @@ package srvlab
 
 import (
 	"fmt"
+	"time"
 
 	"verif/core"
+	"verif/sched"
 	"verif/script"
 	"verif/wire"
 )
@@ -366,6 +368,14 @@ func histCases(prop, tier string, seed int64) []core.Case {
 			return runRandomHist(prop, ctx.Seed, i, steps)
 		}})
 	}
+	if prop == "C04" {
+		for _, dotu := range []bool{false, true} {
+			dotu := dotu
+			cases = append(cases, core.Case{ID: fmt.Sprintf("invalidated-under-a-request/dotu=%v", dotu), Run: func(ctx *core.Ctx) core.Result {
+				return runInvalidatedUnder(dotu)
+			}})
+		}
+	}
 	if prop == "C05" {
 		for _, dotu := range []bool{false, true} {
 			dotu := dotu
@@ -578,5 +588,155 @@ func runNamedUsers(dotu bool) core.Result {
 		}
 	}
 	res.Sample(map[string]interface{}{"scenario": "attach as root / alice / bob by name and number", "dotu": dotu})
+	return res
+}
+
+// runInvalidatedUnder: a fid is clunked or removed while another request naming it is still executing in the
+// implementation (legal 9P: the requests were pipelined). The history still determines the table: after the Rclunk /
+// Rremove the number is invalid (unknown fid, not forwarded) and free to be bound again; the implementation has been
+// told about the old object by then; when the slow request finally finishes, the new fid bound to the same number is
+// untouched; at the disconnect every object was reported destroyed exactly once.
+func runInvalidatedUnder(dotu bool) core.Result {
+	var res core.Result
+	for round := 0; round < 12 && len(res.Violations) < 3; round++ {
+		s := NewSess(Config{Dotu: dotu, Msize: 8192, Maxpend: []int{0, 4}[round%2], ProcOps: round%4 == 3})
+		c := s.Dial()
+		ver := "9P2000"
+		if dotu {
+			ver = "9P2000.u"
+		}
+		if r, err := c.Version(8192, ver, W); err != nil || r.Msg == nil {
+			res.Inconclusive = "c04: version failed"
+			return res
+		}
+		tag := uint16(0)
+		rpc := func(m *wire.Msg) *wire.Msg {
+			tag++
+			m.Tag = tag
+			r, err := c.Rpc(m, W)
+			if err != nil || r.Msg == nil {
+				return nil
+			}
+			return r.Msg
+		}
+		what := fmt.Sprintf("round %d", round)
+		fail := func(sig, msg string) {
+			res.Violate("C04;invalidated-under-a-request;"+sig, msg+" ["+what+"]", map[string]interface{}{"dotu": dotu, "round": round})
+		}
+		if a := rpc(&wire.Msg{Type: wire.Tattach, Fid: 0, Afid: wire.NOFID, Uname: "root", Nuname: 0}); a == nil || a.Type != wire.Rattach {
+			res.Inconclusive = "c04: attach failed"
+			return res
+		}
+		rpc(&wire.Msg{Type: wire.Twalk, Fid: 0, Newfid: 5, Wname: []string{"f"}})
+		rpc(&wire.Msg{Type: wire.Topen, Fid: 5, Mode: 2})
+		// the slow request on fid 5
+		tag++
+		slowKinds := []*wire.Msg{{Type: wire.Tread, Fid: 5, Offset: 0, Count: 10}, {Type: wire.Tstat, Fid: 5}, {Type: wire.Twrite, Fid: 5, Offset: 0, Count: 2, Data: []byte("xy")}}
+		slow := slowKinds[round%3]
+		slow.Tag = tag
+		sp := script.NewPlan()
+		sp.Gate = make(chan struct{})
+		sp.Entered = make(chan struct{})
+		s.Ops.SetPlan(c.ID, slow.Tag, sp)
+		seq0 := s.Log.Seq()
+		_ = c.Send(slow)
+		select {
+		case <-sp.Entered:
+		case <-time.After(W):
+			res.Inconclusive = "c04: slow request never started"
+			return res
+		}
+		var oldTok int64
+		for _, ev := range s.Log.Snapshot(seq0) {
+			if ev.Kind == "op" && ev.Tag == slow.Tag {
+				oldTok = ev.Fid
+			}
+		}
+		inval := &wire.Msg{Type: wire.Tclunk, Fid: 5}
+		if round%2 == 1 {
+			inval.Type = wire.Tremove
+		}
+		what = fmt.Sprintf("round %d: %s held in the implementation, then %s", round, wire.TypeName(slow.Type), wire.TypeName(inval.Type))
+		ir := rpc(inval)
+		res.Evals++
+		if ir == nil || ir.Type != inval.Type+1 {
+			fail("refused", fmt.Sprintf("%s on a fid with a request in progress answered %v", wire.TypeName(inval.Type), ir))
+			close(sp.Gate)
+			c.Hangup()
+			continue
+		}
+		seqInval := s.Log.Seq()
+		// told about the destruction no later than the reply that invalidates the fid
+		destroyed := 0
+		for _, ev := range s.Log.Snapshot(seq0) {
+			if ev.Kind == "destroy" && ev.Fid == oldTok && ev.Seq <= seqInval {
+				destroyed++
+			}
+		}
+		if destroyed != 1 {
+			fail(fmt.Sprintf("destroy-not-by-reply;n=%d", destroyed), fmt.Sprintf("when the reply invalidating the fid arrived the implementation had been told %d times that the fid object is gone", destroyed))
+		}
+		// invalid now: not forwarded, "unknown fid"
+		seq1 := s.Log.Seq()
+		if st := rpc(&wire.Msg{Type: wire.Tstat, Fid: 5}); st == nil || st.Type != wire.Rerror || st.Ename != "unknown fid" {
+			fail("still-valid", fmt.Sprintf("after the %s the fid still answers: %v", wire.TypeName(ir.Type), st))
+		}
+		for _, ev := range s.Log.Snapshot(seq1) {
+			if ev.Kind == "op" && ev.Fid == oldTok && ev.Op == "Stat" {
+				fail("forwarded-after-invalidation", "a request on the invalidated fid reached the implementation")
+			}
+		}
+		// the number can be bound again
+		w := rpc(&wire.Msg{Type: wire.Twalk, Fid: 0, Newfid: 5, Wname: []string{"d"}})
+		rebound := w != nil && w.Type == wire.Rwalk
+		if !rebound {
+			fail("number-not-free", fmt.Sprintf("binding the invalidated fid number again answered %v", w))
+		}
+		// the slow request finishes
+		close(sp.Gate)
+		if _, err := c.WaitTag(slow.Tag, W); err != nil {
+			fail("slow-request-lost", "the request that was executing got no reply")
+		}
+		c.Quiesce(W)
+		if rebound {
+			seq2 := s.Log.Seq()
+			st := rpc(&wire.Msg{Type: wire.Tstat, Fid: 5})
+			if st == nil || st.Type != wire.Rstat {
+				fail("new-fid-lost", fmt.Sprintf("after the old request finished, the fid bound anew to the same number answers %v", st))
+			} else {
+				for _, ev := range s.Log.Snapshot(seq2) {
+					if ev.Kind == "op" && ev.Op == "Stat" && ev.Fid == oldTok {
+						fail("old-object-resurfaced", "the number designates the old fid object again")
+					}
+				}
+			}
+		}
+		// disconnect: every object exactly once
+		shown := map[int64]bool{}
+		for _, ev := range s.Log.Snapshot(0) {
+			if ev.Kind == "op" {
+				for _, t := range []int64{ev.Fid, ev.Newfid} {
+					if t != 0 {
+						shown[t] = true
+					}
+				}
+			}
+		}
+		c.Hangup()
+		s.Ctl.WaitPassed("close.exit", c.ID, sched.AnyTag, 1, W)
+		counts := map[int64]int{}
+		for _, ev := range s.Log.Snapshot(0) {
+			if ev.Kind == "destroy" {
+				counts[ev.Fid]++
+			}
+		}
+		for t := range shown {
+			if counts[t] != 1 {
+				fail(fmt.Sprintf("destroy-count;n=%d", counts[t]), fmt.Sprintf("fid object %d was reported destroyed %d times over the whole connection", t, counts[t]))
+				break
+			}
+		}
+		res.Sig(fmt.Sprintf("invalidated-under|%s|%s|%v", wire.TypeName(slow.Type), wire.TypeName(inval.Type), dotu))
+	}
 	return res
 }
